@@ -1,7 +1,7 @@
 (** C14 — wherever the specification fixes the answer to an HTTP request (RFC routing: split the path, then unescape each segment; the operation of the route on the abstract store), the server gives exactly that answer and state — for every request none of whose escaped segments decodes to a string containing '/' (guard = open finding K-C14-client-slash) *)
 From IV Require Import Base.Bytes Model.StoreSpec Model.Rest Proofs.RestClient.
-Theorem api_reflects_store : forall mfa cfg base st rq out,
+Theorem api_reflects_store : forall mfa cfg srcok base st rq out,
   no_enc_slash (rq_path rq) = true ->
-  spec_serve mfa cfg base st rq = Some out -> serve mfa cfg base st rq = out.
+  spec_serve mfa cfg srcok base st rq = Some out -> serve mfa cfg srcok base st rq = out.
 Proof. exact RestClient.api_reflects_store. Qed.
 Print Assumptions api_reflects_store.
